@@ -87,17 +87,25 @@ ACCESSORS = [
     ("utcoffset", lambda v: v.utcoffset()), ("tzname", lambda v: v.tzname()), ("dst", lambda v: v.dst()),
     ("ctime", lambda v: v.ctime()), ("date", lambda v: v.date()), ("time", lambda v: v.time()),
     ("timetz", lambda v: v.timetz()), ("astimezone-utc", lambda v: v.astimezone(dt_.timezone.utc)),
+    ("astimezone-pendulum-utc", lambda v: v.astimezone(_PEND["UTC"])),
+    ("astimezone-pendulum-zone", lambda v: v.astimezone(_PEND["zone"])),
+    ("astimezone-pendulum-fixed", lambda v: v.astimezone(_PEND["fixed"])),
     ("year..fold", lambda v: (v.year, v.month, v.day, v.hour, v.minute, v.second, v.microsecond, v.fold)),
     ("format", lambda v: format(v, "%Y/%m/%d %H:%M")),
 ] + [(f"strftime({d})", (lambda v, d=d: v.strftime(d))) for d in DIRECTIVES.split("|")]
 
 
+_PEND = {}
+
+
 def check_state(acc, pendulum, z, inst):
+    if not _PEND:
+        _PEND.update(UTC=pendulum.UTC, zone=_tz(pendulum, "America/St_Johns"), fixed=pendulum.FixedTimezone(-34200))
     x, b, a = mk(pendulum, z, inst)
     case = {"kind": "state", "z": z, "inst": inst}
     in_fold = z is not None and not isinstance(z, int) and obs.is_repeated_wall(z, obs.fields(x))
     for name, fn in ACCESSORS:
-        if z is None and name in ("astimezone-utc", "timestamp", "utctimetuple"):
+        if z is None and (name.startswith("astimezone") or name in ("timestamp", "utctimetuple")):
             continue     # naive values consult the process's local zone: not a property of the value
         got = _try(lambda: fn(x))
         want = _try(lambda: fn(b))
